@@ -51,7 +51,26 @@ PERTURB = [
     {'strategy': {'name': 'fifo'}, 'evict': True, 'uuid': True},
     {'strategy': {'name': 'fifo'}, 'sched': 'other'},
     {'strategy': {'name': 'random'}, 'sched': 'other', 'uuid': True},
+    # a later execution in the same engine process: the same definition was
+    # run before with other input and other action results, the in-memory
+    # specification caches (and the objects hanging off them) are kept
+    {'strategy': {'name': 'fifo'}, 'warm': True},
+    {'strategy': {'name': 'random'}, 'warm': True},
 ]
+
+
+def _alt_input(inp):
+    out = {}
+    for k, v in (inp or {}).items():
+        if isinstance(v, bool):
+            out[k] = not v
+        elif isinstance(v, int):
+            out[k] = v + 1
+        elif isinstance(v, str):
+            out[k] = v + '-warm'
+        else:
+            out[k] = v
+    return out
 
 
 def bundled():
@@ -205,6 +224,16 @@ def run_case(case):
             other = 'default' if cur == 'legacy' else 'legacy'
             c['scheduler'] = other if pert['sched'] == 'other' \
                 else pert['sched']
+        if pert.get('warm'):
+            if not P:
+                continue
+            c['warm'] = {'start': dict(case.get('start') or {},
+                                       input=_alt_input(
+                                           (case.get('start') or {}).get(
+                                               'input') or P.get('input'))),
+                         'outcomes': []}
+            res['monitor_evaluations']['warm-process'] = \
+                res['monitor_evaluations'].get('warm-process', 0) + 1
         run = ec.execute(c)
         res['executions'] += 1
         _collect(res, run)
